@@ -70,31 +70,56 @@ def _top_word(t, k_key):
     return None
 
 
-def check_second_word(ctx, F):
-    key = 'R4/seal-second-word/' + RENC
-    role = 'a second, zero word is appended exactly when one word does not pin the interval'
-    seal = anchors.range_encoder_parts(F).get('seal')
-    if seal is None:
-        return ctx.bad('R4', role, RENC, 'seal() not found', key=key)
+def _const_at(t, ratio, w=8):
+    """value of a term over the two width constants for State::BITS = ratio * Word::BITS (None if it mentions anything else)."""
+    t = c18.peel(t)
+    if sym.is_int(t):
+        return t[1]
+    if not isinstance(t, tuple) or not t:
+        return None
+    if t[0] == 'c':
+        if 'State' in t[1] and 'BITS' in t[1]:
+            return ratio * w
+        if 'Word' in t[1] and 'BITS' in t[1]:
+            return w
+        return None
+    if t[0] == 'cast':
+        return _const_at(t[2], ratio, w)
+    if t[0] == 'bin':
+        x, y = _const_at(t[2], ratio, w), _const_at(t[3], ratio, w)
+        if x is None or y is None:
+            return None
+        op = t[1].split('.')[0]
+        if op == 'Add':
+            return x + y
+        if op == 'Sub':
+            return x - y
+        if op == 'Mul':
+            return x * y
+        if op == 'Div' and y:
+            return x // y
+    return None
+
+
+RATIOS = (2, 4, 8, 16)     # every ratio of the primitive unsigned types (u8 .. u128)
+
+
+def _seal_summary(F, seal):
+    """Per successful path of seal() that writes the point word: what follows it.
+    Returns (k, records) with records = dict(equal=True/False/None, straight=[word terms], trips=[trip terms], loops_ok=bool,
+    nonwrapping=term or None); or (None, reason)."""
+    from vlib import effects
     _, spaths = rules.evaluate(seal)
     A, k, _ = c02._seal_addend(spaths, F)
     if A is None:
-        return ctx.unresolved('R4', role, seal.defpath, 'sealing addend not recognised', key=key)
+        return None, 'sealing addend not recognised'
     kk = pow2._exp_key(k)
     lower_is = lambda x: c18._is_field(x, 'state', 'lower')
     range_is = lambda x: sym.contains(x, lambda y: c18._is_field(y, 'state', 'range'))
-
-    def is_point(x):
-        return isinstance(x, tuple) and x and x[0] == 'bin' and x[1] == 'Add.w' and any(lower_is(o) for o in (x[2], x[3])) and not range_is(x)
-
-    def is_upper(x):
-        return isinstance(x, tuple) and x and x[0] == 'bin' and x[1] == 'Add.w' and any(lower_is(o) for o in (x[2], x[3])) and range_is(x)
-    n_two = n_one = 0
-    bad = unk = None
-    n_point_paths = n_followed = 0
+    is_point = lambda x: isinstance(x, tuple) and x and x[0] == 'bin' and x[1] == 'Add.w' and any(lower_is(o) for o in (x[2], x[3])) and not range_is(x)
+    is_upper = lambda x: isinstance(x, tuple) and x and x[0] == 'bin' and x[1] == 'Add.w' and any(lower_is(o) for o in (x[2], x[3])) and range_is(x)
 
     def nonwrapping_upper(x):
-        # lower combined with range by anything but a wrapping addition (plain +, saturating_add, checked_add ...)
         if not isinstance(x, tuple) or not x:
             return False
         if x[0] == 'bin' and x[1].split('.')[0] == 'Add' and x[1] != 'Add.w' and any(lower_is(o) for o in (x[2], x[3])) and range_is(x):
@@ -102,110 +127,158 @@ def check_second_word(ctx, F):
         if x[0] == 'call' and isinstance(x[1], str) and x[1].endswith(('::saturating_add', '::checked_add', '::overflowing_add', '::unchecked_add')) and x[2] and any(lower_is(o) for o in x[2]) and range_is(x):
             return True
         return False
+
+    def is_point_write(e):
+        x = _top_word(rules.inline_pure(F, e['args'][1]), kk)
+        return x is not None and is_point(rules.inline_pure(F, x))
+    # what one iteration of each loop writes (loops are identified by their head block)
+    per_iter = {}
+    for r in spaths or []:
+        if r.end != 'backedge':
+            continue
+        les = [(i, e) for i, e in enumerate(r.events) if e['kind'] == 'loop_enter']
+        if not les:
+            continue
+        i0, le = les[-1]
+        ws = [e for e in r.events[i0:] if c08.is_call_on(e, 'WriteWords::write', BULK)]
+        per_iter.setdefault(le['head'], []).append([e['args'][1] for e in ws])
+    recs = []
     for r in spaths or []:
         if r.end != 'return' or rules.ret_shape(r.ret)[0] != 'Ok':
             continue
-        ws = [e for e in r.events if c08.is_call_on(e, 'WriteWords::write', BULK)]
-        # the words of the point: writes whose argument is a top word of lower +w A
-        pw = [i for i, e in enumerate(ws) if (lambda x: x is not None and is_point(rules.inline_pure(F, x)))(_top_word(rules.inline_pure(F, e['args'][1]), kk))]
-        if not pw:
+        idx = [i for i, e in enumerate(r.events) if c08.is_call_on(e, 'WriteWords::write', BULK) and is_point_write(e)]
+        if not idx:
             continue
-        after = ws[pw[-1] + 1:]
-        n_point_paths += 1
-        n_followed += 1 if after else 0
-        # the test on this path
-        verdict = None
+        ip = idx[-1]
+        rec = dict(equal=None, straight=[], trips=[], loops_ok=True, nonwrapping=None)
+        for e in r.events[ip + 1:]:
+            if c08.is_call_on(e, 'WriteWords::write', BULK):
+                rec['straight'].append(e['args'][1])
+            if e['kind'] == 'loop_enter':
+                trip = None
+                for pth, v in e['pre'].items():
+                    if v[0] == 'call' and 'into_iter' in v[1]:
+                        try:
+                            trip = effects.IterModel(r).length(v)
+                        except Exception:
+                            trip = None
+                rec['trips'].append(trip)
+                its = per_iter.get(e['head'], [])
+                if not its or any(len(w) != 1 or not (pow2._is_zero(c18.peel(w[0])) or sym.show(c18.peel(w[0])) == 'zero()') for w in its):
+                    rec['loops_ok'] = False
         for t, v, _ in r.preds:
             t = rules.inline_pure(F, t)
-            if sym.contains(t, nonwrapping_upper):
-                bad = 'the end of the final interval is computed as %s, without wrap-around: when lower + range passes 2^State::BITS (the coder holds back words) the top word compared with the point word is wrong and the second sealing word is omitted where it is needed' % sym.show([x for x in sym.subterms(t) if nonwrapping_upper(x)][0])[:90]
+            nw = [x for x in sym.subterms(t) if nonwrapping_upper(x)]
+            if nw:
+                rec['nonwrapping'] = nw[0]
             if isinstance(v, tuple) or not (isinstance(t, tuple) and t and t[0] == 'bin' and t[1].split('.')[0] in ('Eq', 'Ne')):
                 continue
             a, b = _top_word(t[2], kk), _top_word(t[3], kk)
             if a is None or b is None:
                 continue
             if (is_point(a) and is_upper(b)) or (is_point(b) and is_upper(a)):
-                verdict = bool(v) == (t[1].split('.')[0] == 'Eq')       # True: the two top words are equal on this path
-        if verdict is None:
-            unk = 'a path writes the point word without a recognisable comparison of the top words of point and lower + range'
+                rec['equal'] = bool(v) == (t[1].split('.')[0] == 'Eq')
+        recs.append(rec)
+    return k, recs
+
+
+def _words_after(rec, ratio):
+    """number of words that follow the point word on this path for State = ratio Words (None if not a constant)."""
+    n = len(rec['straight'])
+    for t in rec['trips']:
+        v = _const_at(t, ratio) if t is not None else None
+        if v is None:
+            return None
+        n += max(v, 0)
+    return n
+
+
+def check_second_word(ctx, F):
+    key = 'R4/seal-second-word/' + RENC
+    role = 'zero words are appended exactly when one word does not pin the interval'
+    seal = anchors.range_encoder_parts(F).get('seal')
+    if seal is None:
+        return ctx.bad('R4', role, RENC, 'seal() not found', key=key)
+    k, recs = _seal_summary(F, seal)
+    if k is None:
+        return ctx.unresolved('R4', role, seal.defpath, recs, key=key)
+    bad = unk = None
+    n_two = n_one = 0
+    for rec in recs:
+        if rec['nonwrapping'] is not None:
+            bad = 'the end of the final interval is computed as %s, without wrap-around: when lower + range passes 2^State::BITS (the coder holds back words) the top word compared with the point word is wrong and the second sealing word is omitted where it is needed' % sym.show(rec['nonwrapping'])[:90]
+        words2 = _words_after(rec, 2)
+        if rec['equal'] is None:
+            unk = unk or 'a path writes the point word without a recognisable comparison of the top words of point and lower + range'
             continue
-        if verdict:
+        if rec['equal']:
             n_two += 1
-            if len(after) != 1:
-                bad = 'on the path where the top words of point and of lower + range coincide, %d word(s) follow the point word (one is needed): a suffix of all-ones words moves the decoder\'s point past the end of the final interval' % len(after)
-            elif not pow2._is_zero(c18.peel(after[0]['args'][1])) and sym.show(c18.peel(after[0]['args'][1])) != 'zero()':
-                bad = 'the second sealing word is %s, not zero: the prefix interval the decoder can land in starts above the point and can leave the final interval' % sym.show(after[0]['args'][1])[:60]
+            if words2 is None or not rec['loops_ok']:
+                unk = unk or 'the words after the point word are written by a loop the rule cannot count'
+            elif words2 != 1:
+                bad = 'on the path where the top words of point and of lower + range coincide, %d word(s) follow the point word for State = 2 Words (one is needed): a suffix of all-ones words moves the decoder\'s point past the end of the final interval' % words2
+            elif any(not (pow2._is_zero(c18.peel(w)) or sym.show(c18.peel(w)) == 'zero()') for w in rec['straight']):
+                bad = 'a word that follows the point word is %s, not zero: the prefix interval the decoder can land in starts above the point and can leave the final interval' % sym.show(rec['straight'][0])[:60]
         else:
             n_one += 1
-            if after:
+            if rec['straight'] or rec['trips']:
                 unk = unk or 'words follow the point word on the path where one word suffices'
-    if not bad and n_point_paths and not n_followed and not n_two:
+    if not bad and recs and not n_two and all(not rec['straight'] and not rec['trips'] for rec in recs):
         bad = 'no path of seal() appends a word after the point word: when the top word of lower + range equals the point word, one word does not pin the interval and an all-ones suffix decodes to a different last symbol'
     if bad:
         return ctx.bad('R4', role, seal.defpath, bad, key=key, loc=rules.loc(seal))
     if unk or not n_two or not n_one:
-        return ctx.unresolved('R4', role, seal.defpath, unk or 'paths with one / two sealing words not both found (%d / %d)' % (n_one, n_two), key=key)
-    return ctx.ok('R4', role, seal.defpath, '%d path(s) with top words equal append one zero word, %d path(s) with top words different append none' % (n_two, n_one), key=key)
+        return ctx.unresolved('R4', role, seal.defpath, unk or 'paths with one / several sealing words not both found (%d / %d)' % (n_one, n_two), key=key)
+    return ctx.ok('R4', role, seal.defpath, '%d path(s) with top words equal append zero words (one for State = 2 Words), %d path(s) with top words different append none' % (n_two, n_one), key=key)
 
 
 def check_pins_every_width(ctx, F):
     """S6.  After the point word and j zero words the decoder can land anywhere in a prefix interval of width 2^(k - j*W)
     that starts at  base = (point >> k) << k.  The sealing addend guarantees  lower <= base  and  base < lower + range, i.e.
     only that the distance from base to the end of the final interval is at least 1.  So the emitted words pin the message
-    for every state only if  k - j*W <= 0  for the largest j seal() can emit.  With k = S - W and j = 1 that is S <= 2W: true
-    for State = two Words, false for the wider states the type admits (State >= 2 Words is all the coders assert)."""
+    for every state only if  k - j*W <= 0  for the number j of zero words seal() emits when one word does not suffice.  j may
+    depend on the widths (a loop over State::BITS / Word::BITS); it is evaluated for State = 2, 4, 8 and 16 Words (all ratios of the primitive unsigned types)."""
     key = 'R10/seal-pins-every-width/' + RENC
     role = 'the sealing words pin the message for every admitted (Word, State)'
     seal = anchors.range_encoder_parts(F).get('seal')
     if seal is None:
         return ctx.bad('R10', role, RENC, 'seal() not found', key=key)
-    _, spaths = rules.evaluate(seal)
-    A, k, _ = c02._seal_addend(spaths, F)
-    if A is None:
-        return ctx.unresolved('R10', role, seal.defpath, 'sealing addend not recognised', key=key)
-    kk = pow2._exp_key(k)
-    lower_is = lambda x: c18._is_field(x, 'state', 'lower')
-    range_is = lambda x: sym.contains(x, lambda y: c18._is_field(y, 'state', 'range'))
-    is_point = lambda x: isinstance(x, tuple) and x and x[0] == 'bin' and x[1] == 'Add.w' and any(lower_is(o) for o in (x[2], x[3])) and not range_is(x)
-    j_max = None
-    for r in spaths or []:
-        ws_all = [e for e in r.events if c08.is_call_on(e, 'WriteWords::write', BULK)]
-        pw_all = [i for i, e in enumerate(ws_all) if (lambda x: x is not None and is_point(rules.inline_pure(F, x)))(_top_word(rules.inline_pure(F, e['args'][1]), kk))]
-        if r.end == 'backedge' and pw_all and len(ws_all) > pw_all[-1] + 1:
-            # (the loop that releases held-back words runs before the point word and does not count)
-            return ctx.unresolved('R10', role, seal.defpath, 'zero words are written inside a loop: the number of sealing words is data dependent, which this rule does not evaluate', key=key)
-        if r.end != 'return' or rules.ret_shape(r.ret)[0] != 'Ok':
-            continue
-        ws = [e for e in r.events if c08.is_call_on(e, 'WriteWords::write', BULK)]
-        pw = [i for i, e in enumerate(ws) if (lambda x: x is not None and is_point(rules.inline_pure(F, x)))(_top_word(rules.inline_pure(F, e['args'][1]), kk))]
-        if pw:
-            j_max = max(j_max or 0, len(ws) - 1 - pw[-1])
-    if j_max is None:
+    k, recs = _seal_summary(F, seal)
+    if k is None:
+        return ctx.unresolved('R10', role, seal.defpath, recs, key=key)
+    ctx.assume('the range coders assert State::BITS >= 2 * Word::BITS and nothing more (witnessed in the thorough tier of C02); State::BITS is a multiple of Word::BITS (both are powers of two)')
+    eq = [rec for rec in recs if rec['equal']] or recs
+    if not eq:
         return ctx.unresolved('R10', role, seal.defpath, 'no path writes the point word', key=key)
-    e = pow2._exp_add(k, WB, -j_max)          # log2 of the width of the prefix interval after the last sealing word
-    ctx.assume('the range coders assert State::BITS >= 2 * Word::BITS and nothing more (witnessed in the thorough tier of C02)')
-    # evaluate the affine exponent at State = 2 Words and at State = 4 Words
-    def at(e, s_over_w):
-        v = e[1]
-        for kx, (c, atom) in e[0].items():
-            name = sym.show(atom)
-            if 'State' in name and 'BITS' in name:
-                v += c * s_over_w
-            elif 'Word' in name and 'BITS' in name:
-                v += c * 1
-            else:
-                return None
-        return v
-    e2, e4 = at(e, 2), at(e, 4)
-    if e2 is None or e4 is None:
-        return ctx.unresolved('R10', role, seal.defpath, 'residual width 2^(%s) is not a function of the two widths' % sym.affine_str(e), key=key)
-    if e2 <= 0 and e4 <= 0:
-        return ctx.ok('R10', role, seal.defpath, 'after at most %d zero word(s) the prefix interval has width 2^(%s) <= 1' % (j_max, sym.affine_str(e)), key=key)
-    if e2 <= 0 < e4:
-        return ctx.bad('R10', role + ' (State wider than two Words)', seal.defpath, 'seal() emits at most %d word(s) after the point word, which leaves a prefix interval of width 2^(%s): a single value for State = 2 Words, but 2^Word::BITS or more values for wider states, '
+    if any(not rec['loops_ok'] for rec in eq):
+        return ctx.unresolved('R10', role, seal.defpath, 'a loop after the point word writes something other than one zero word per iteration', key=key)
+    residual = {}
+    for ratio in RATIOS:
+        js = [_words_after(rec, ratio) for rec in eq]
+        kw = _const_at_exp(k, ratio)
+        if kw is None or any(j is None for j in js):
+            return ctx.unresolved('R10', role, seal.defpath, 'the number of sealing words (or the emission shift) is not a function of the two widths', key=key)
+        residual[ratio] = kw - 8 * min(js)       # log2 of the width of the prefix interval after the last sealing word (Word::BITS = 8)
+    if all(v <= 0 for v in residual.values()):
+        return ctx.ok('R10', role, seal.defpath, 'when one word does not pin the interval, the zero words that follow narrow the prefix interval to a single value for State = 2, 4, 8, 16 Words (residual log-widths %s)' % sorted(residual.items()), key=key)
+    if residual[2] <= 0:
+        return ctx.bad('R10', role + ' (State wider than two Words)', seal.defpath, 'the words seal() emits after the point word leave a prefix interval of a single value for State = 2 Words, but of 2^%d values for State = 4 Words (Word::BITS = 8), '
                        'while only a distance of 1 between the truncated point and the end of the final interval is guaranteed. For State wider than two Words an all-ones suffix can therefore move the decoder past the final interval '
-                       '(RangeEncoder<u8, u32>, probabilities [3, 3, 160, 90] at PRECISION 8, message [0, 3, 0, 1, 0, 0, 1] followed by ff ff ff decodes the last symbol as 2)' % (j_max, sym.affine_str(e)), key=key + '/wider-than-two-words', loc=rules.loc(seal))
-    return ctx.bad('R10', role, seal.defpath, 'the prefix interval after the sealing words has width 2^(%s) > 1 even for State = 2 Words: seal() never appends the second word, so an all-ones suffix moves the decoder past the end of the final interval whenever one word does not pin it' % sym.affine_str(e), key=key, loc=rules.loc(seal))
+                       '(RangeEncoder<u8, u32>, probabilities [3, 3, 160, 90] at PRECISION 8, message [0, 3, 0, 1, 0, 0, 1] followed by ff ff ff decodes the last symbol as 2)' % residual[4], key=key + '/wider-than-two-words', loc=rules.loc(seal))
+    return ctx.bad('R10', role, seal.defpath, 'the prefix interval after the sealing words has more than one value even for State = 2 Words: seal() does not append enough zero words, so an all-ones suffix moves the decoder past the end of the final interval whenever one word does not pin it', key=key, loc=rules.loc(seal))
+
+
+def _const_at_exp(e, ratio, w=8):
+    v = e[1]
+    for kx, (c, atom) in e[0].items():
+        name = sym.show(atom)
+        if 'State' in name and 'BITS' in name:
+            v += c * ratio * w
+        elif 'Word' in name and 'BITS' in name:
+            v += c * w
+        else:
+            return None
+    return v
 
 
 def check_append_only(ctx, F):
